@@ -74,6 +74,8 @@ def run_case(case, ctx):
         opts.update(ns=[100000, 100001, 50000, 150000][case['seed'][1] % 4],       # also exact multiples of the batch size
                      n_samples=2000000, features=['sparse', 'dense'][case['seed'][1] % 2],
                     clusters='same', nt=4, nc=6)
+    if opts['wm'] and not opts['wmi_only'] and case['seed'][-1] % 9 == 4:
+        opts['wm_scale'] = 4e-9        # a coupling matrix in tiny units: every off-diagonal entry is far below 1e-8
     opts.update(dtype_amps=['float64', 'float32'][int(rng.integers(0, 2))],
                 dtype_templates=['float32', 'float32', 'float64'][int(rng.integers(0, 3))],
                 dtype_feat=['float32', 'float64'][int(rng.integers(0, 2))])
